@@ -1,6 +1,6 @@
 // C30 (data movement, receiving side): unserialize() of a vector / hvector / indexed type whose old type is itself a derived type with holes
 // (V = vector(2 blocks of 1 byte, stride P_VS): size 2, extent P_VS + 1), with the real MPI_REPLACE operator: every byte of the packed stream lands at the
-// place the MPI type map gives it, in type-map order, and nothing else is written. P_CTOR 1 vector, 2 hvector, 3 indexed ; P_COUNT blocks of P_B elements.
+// place the MPI type map gives it, in type-map order, and nothing else is written. P_CTOR 1 vector, 2 hvector, 3 indexed, 4 struct ; P_COUNT blocks of P_B elements.
 #define VERIF_COMMON_STUBS
 #include "verif.h"
 #include "src/smpi/mpi/smpi_op.cpp" // (replace_func is local to that file)
@@ -15,6 +15,12 @@ void simgrid::s4u::intrusive_ptr_add_ref(const simgrid::s4u::Actor*) {}
 static void* fake_process = calloc(1, 4096); // an smpi process that is not replaying a trace (only that flag is read)
 simgrid::smpi::ActorExt* smpi_process() { return static_cast<simgrid::smpi::ActorExt*>(fake_process); }
 bool simgrid::smpi::ActorExt::replaying() const { return false; }
+#ifndef P_CNT
+#define P_CNT 1 // number of consecutive elements of the type that are unpacked
+#endif
+#ifndef P_FIRST
+#define P_FIRST 0 // displacement of the first block (indexed)
+#endif
 #define NC 64
 static unsigned char nc[NC];
 static unsigned char before[NC];
@@ -53,28 +59,41 @@ extern "C" void harness_unserialize()
   int idx[P_COUNT];
   for (int i = 0; i < P_COUNT; i++) {
     bl[i]  = P_B;
-    idx[i] = i * P_STRIDE + (i > 0 ? 1 : 0); // increasing block displacements, the first one at 0
+    idx[i] = P_FIRST + i * P_STRIDE + (i > 0 ? 1 : 0); // increasing block displacements, the first one at P_FIRST
     for (int k = 0; k < P_B; k++)
       for (int j = 0; j < 2; j++)
         disp[i][k][j] = (idx[i] + k) * ve + j * P_VS;
   }
+#if P_CTOR == 4 // struct: the same blocks given by byte displacements, every block of the same old type
+  MPI_Aint bdisp[P_COUNT];
+  MPI_Datatype types[P_COUNT];
+  for (int i = 0; i < P_COUNT; i++) {
+    bdisp[i] = idx[i] * ve;
+    types[i] = V;
+  }
+  Datatype::create_struct(P_COUNT, bl, bdisp, types, &t);
+#else
   Datatype::create_indexed(P_COUNT, bl, idx, V, &t);
 #endif
+#endif
   MPI_Op replace = new simgrid::smpi::Op(replace_func, true, true, 0, std::string());
-  t->unserialize(packed, nc, 1, replace);
+  t->unserialize(packed, nc, P_CNT, replace); // P_CNT consecutive elements: element j is the type map displaced by j times the extent
+  const long ext = t->get_extent();
   bool written[NC];
   for (int i = 0; i < NC; i++)
     written[i] = false;
   int pos = 0;
-  for (int i = 0; i < P_COUNT; i++)
-    for (int k = 0; k < P_B; k++)
-      for (int j = 0; j < 2; j++) {
-        CHECK(disp[i][k][j] < NC, "harness: shape fits the buffer");
-        CHECK(nc[disp[i][k][j]] == packed[pos], "unpacking puts every byte of the packed stream where the type map says, in type-map order");
-        written[disp[i][k][j]] = true;
-        pos++;
-      }
-  CHECK(static_cast<int>(t->size()) == pos, "the packed size is the number of selected bytes");
+  for (int el = 0; el < P_CNT; el++)
+    for (int i = 0; i < P_COUNT; i++)
+      for (int k = 0; k < P_B; k++)
+        for (int j = 0; j < 2; j++) {
+          const long at = el * ext + disp[i][k][j];
+          CHECK(at < NC && pos < 16, "harness: shape fits the buffers");
+          CHECK(nc[at] == packed[pos], "unpacking puts every byte of the packed stream where the type map says, in type-map order");
+          written[at] = true;
+          pos++;
+        }
+  CHECK(static_cast<int>(t->size()) * P_CNT == pos, "the packed size is the number of selected bytes");
   for (int i = 0; i < NC; i++)
     if (not written[i])
       CHECK(nc[i] == before[i], "bytes the type map does not select are left untouched");
